@@ -213,6 +213,12 @@ def run(ctx):
     seen_types = set()
     for cname, info in sorted(types.items()):
         for tp, node in info['type']:
+            if tp is None:
+                ctx.ob('C18.R4', 'type-is-literal:' + cname, False,
+                       'class %s computes its group type at run time (%s): the types that need an '
+                       'interaction_matrix row can no longer be enumerated, and a value without a '
+                       'row never interacts' % (cname, norm(node)), prog.mod('group'), node)
+                continue
             if tp in seen_types:
                 continue
             seen_types.add(tp)
